@@ -136,7 +136,10 @@ def canonical_model():
 
 _CANON = []
 HOSTILE_STRINGS = ['', '%', '%s', '100%', '{0}', '{', '}', '\n', 'x' * 300, 'in ', 'IN', 'injected ',
-                   'a.b', '1a', '\\', '\x00', 'void']
+                   'a.b', '1a', '\\', '\x00', 'void',
+                   # identifier-like for Unicode-aware predicates, invalid for the ASCII rule
+                   'Gr\u00f6\u00dfe', '\u03c0', 'x\u00b2', '\u53d8\u91cf', 'caf\u00e9', '\u0661', 'a\u0301',
+                   '_\u00aa', '\uff21']
 RETYPES = [None, True, 7, 3.5, [], {}, ['x'], {'<class>': 'enum'}, 'str',
            # values that are "falsy" / equal to other Python values (False == 0, 0.0, '')
            False, 0, -1, 0.0, '', [None], [False], [[]], 2 ** 62]
@@ -207,7 +210,7 @@ def run(ctx):
     ctx.enumerate('single_fault_exhaustive', single_fault_cases(), check_single_fault,
                   nontrivial=lambda c: True, labels=lambda c: ['single-fault-' + c['op']])
     ctx.extra['exhaustive_part'] = ('every slot of one canonical document holding all element kinds x '
-                                    '{delete, 18 retypings, 17 hostile strings, every class tag, empty / '
+                                    '{delete, 18 retypings, 26 hostile strings, every class tag, empty / '
                                     'duplicated list}')
     mutated = st.fixed_dictionaries({'model': gen_doc.doc_model(max_depth=4),
                                      'noise': gen_doc.noise(), 'mutations': mutate_json.mutations})
